@@ -80,12 +80,13 @@ def oracle(case, ctx):
         f = clone(base).set_params(**p)
         r = sut(evaluate, f, build_cv(case["cv"]), y, None, strategy=strategy, scoring=metric)
         if isinstance(r, Raised):
-            raise AssertionError("generator produced a candidate that cannot be evaluated: %s %r" % (p, r))
+            # evaluate refuses a candidate the generator builds to be valid (it never does on the unchanged tree)
+            return [D("independent_evaluate_raised:%s@%s" % (r.type, r.where), "candidate %s: %s" % (p, r.msg))]
         # ... and what the scores ARE: the plain metric function on each fold's forecasts
         # (return_data gives y_test / y_pred of the same run)
         rd = sut(evaluate, clone(base).set_params(**p), build_cv(case["cv"]), y, None, strategy=strategy, scoring=metric, return_data=True)
         if isinstance(rd, Raised):
-            raise AssertionError("evaluate(return_data=True) failed: %r" % (rd,))
+            return [D("independent_evaluate_raised:%s@%s" % (rd.type, rd.where), "candidate %s (return_data=True): %s" % (p, rd.msg))]
         raw = raw_metric(case["metric"])
         raw_mean = float(np.mean([raw(a, b) for a, b in zip(rd["y_test"], rd["y_pred"])]))
         if not np.isclose(raw_mean, float(r[col].mean()), rtol=1e-9, atol=1e-300, equal_nan=True):
@@ -183,7 +184,7 @@ def oracle(case, ctx):
 
 def _same_pred(a, b, what):
     if isinstance(b, Raised):
-        raise AssertionError("direct forecaster failed: %r" % (b,))
+        return [D("directly_built_forecaster_raised:%s:%s@%s" % (what.replace(" ", "_"), b.type, b.where), b.msg)]
     if isinstance(a, Raised):
         return [D("tuner_%s_raised:%s" % (what.replace(" ", "_"), a.type), a.msg)]
     if list(a.index) != list(b.index) or not np.allclose(a.to_numpy(dtype=float), b.to_numpy(dtype=float), rtol=1e-12, atol=0, equal_nan=True):
